@@ -79,8 +79,19 @@ class _FilesystemDataSource(DataSource):
     def _write_non_versioned_link(self, versioned_key: VersionedDataSourceKey):
         non_versioned_path = self._get_non_versioned_link_path(versioned_key.key)
         versioned_path = self._get_path_versioned(versioned_key)
-        with open(str(non_versioned_path), "w") as f:
-            f.write(str(versioned_path))
+        # Write the link next to the object it points to and move it into place, so that
+        # a crash or I/O error can never leave an empty or truncated link file behind.
+        tmp_path = versioned_path.parent.joinpath(versioned_path.name + ".link.tmp")
+        try:
+            with open(str(tmp_path), "w") as f:
+                f.write(str(versioned_path))
+            os.replace(str(tmp_path), str(non_versioned_path))
+        except BaseException:
+            try:
+                os.unlink(str(tmp_path))
+            except OSError:
+                pass
+            raise
 
     def _delete_non_versioned_link(self, key: DataSourceKey):
         non_versioned_path = self._get_non_versioned_link_path(
@@ -150,7 +161,8 @@ class _FilesystemDataSource(DataSource):
             result = False
         else:
             path = self._read_non_versioned_link(key)
-            result = path.exists()
+            # An empty or truncated link (left by an interrupted write) is not a key
+            result = path.is_file()
         log.debug("Exists {}? {}".format(key, result))
         return result
 
